@@ -469,7 +469,7 @@ pub fn exercise_everything(b: &[u8]) -> Result<bool, Failure> {
     Ok(accepted)
 }
 
-fn c01_oracle(c: &Bytes, st: &mut Stats) -> Verdict {
+pub(crate) fn c01_oracle(c: &Bytes, st: &mut Stats) -> Verdict {
     let b = &c.0[..];
     st.label(match b.len() {
         0 => "len:0",
@@ -586,7 +586,7 @@ fn c09_blocks(name: &str, b: &[u8], base: usize, count: usize, blocks: &[ReportB
     Ok(())
 }
 
-fn c09_oracle(c: &Bytes, st: &mut Stats) -> Verdict {
+pub(crate) fn c09_oracle(c: &Bytes, st: &mut Stats) -> Verdict {
     let b = &c.0[..];
     if b.len() < 4 {
         st.label("too short");
@@ -703,7 +703,7 @@ fn c09_oracle(c: &Bytes, st: &mut Stats) -> Verdict {
 }
 
 /// well-formed packets from the independent encoder must be accepted and read back to the spec
-fn c09_ref_oracle(spec: &PacketSpec, st: &mut Stats) -> Verdict {
+pub(crate) fn c09_ref_oracle(spec: &PacketSpec, st: &mut Stats) -> Verdict {
     st.label(&spec.long_name());
     st.nontrivial();
     let bytes = ref_encode(spec);
@@ -770,7 +770,7 @@ pub struct CompoundCase {
     pub extra: u8,
 }
 
-fn c11_oracle(c: &CompoundCase, st: &mut Stats) -> Verdict {
+pub(crate) fn c11_oracle(c: &CompoundCase, st: &mut Stats) -> Verdict {
     let b = &c.bytes.0[..];
     let tiles = ref_tile(b);
     let parsed = no_panic("Compound::parse", || Compound::parse(b))?;
@@ -894,7 +894,7 @@ pub fn c11(tier: Tier) -> Check {
 // C12
 // ---------------------------------------------------------------------------------------------
 
-fn c12_oracle(c: &Bytes, st: &mut Stats) -> Verdict {
+pub(crate) fn c12_oracle(c: &Bytes, st: &mut Stats) -> Verdict {
     let b = &c.0[..];
     if b.len() < 4 {
         st.label("shorter than a header (outside the domain)");
@@ -1025,3 +1025,7 @@ pub fn c12(tier: Tier) -> Check {
         ],
     }
 }
+
+
+
+
